@@ -48,6 +48,7 @@ var Checks = map[string]func(env *Env, rep *Report){
 	"C01": RunC01,
 	"C02": RunC02,
 	"C03": RunC03,
+	"C04": RunC04,
 	"C05": RunC05,
 	"C10": RunC10,
 	"C11": RunC11,
@@ -61,3 +62,6 @@ var Checks = map[string]func(env *Env, rep *Report){
 }
 
 func jsonUnmarshal(b []byte, v interface{}) { _ = json.Unmarshal(b, v) }
+
+func jsonMarshal(v interface{}) ([]byte, error)        { return json.Marshal(v) }
+func jsonUnmarshalErr(b []byte, v interface{}) error { return json.Unmarshal(b, v) }
